@@ -82,6 +82,15 @@ def run_check(pid, tier, seed):
     setup_impl_path()
     ctx.workdir = WORK / str(os.getpid())
     ctx.workdir.mkdir(parents=True, exist_ok=True)
+    # anchor fingerprints: a changed source is when a sampled tie is weakest -> search harder (never an alarm by itself)
+    import anchors
+    anc = anchors.status(pid)
+    ctx.extra["anchor_fingerprints"] = anc
+    if tier == "quick" and (anc["functions_changed"] or anc["files_changed"]):
+        ctx.scale = 5 if anc["functions_changed"] else 2
+        ctx.deadline = time.time() + 150
+        ctx.notes.append(f"anchored source differs from the pinned tree ({len(anc['functions_changed'])} anchored functions, "
+                         f"{len(anc['files_changed'])} files): case budget x{ctx.scale}, capped at 150 s")
     try:
         mod.run(ctx)
         new = [v for v in ctx.violations if not ctx.findings.known(pid, v["signature"])]
